@@ -21,6 +21,10 @@ import traceback
 sys.path.insert(0, os.path.dirname(os.path.abspath(__file__)))
 import vlib  # noqa: E402
 
+sys.path.insert(0, vlib.REPO)  # the implementation under test: /repo's working tree (or VERIF_REPO)
+os.environ["PYTHONPATH"] = vlib.REPO
+os.environ.setdefault("PYTHONHASHSEED", "0")
+
 
 def setup():
     with vlib.Lock():
